@@ -373,15 +373,29 @@ def _create_isotopomer_reactions(
         )
         new_rate_name = rate_name + "__" + rate_suffix
 
-        replacements = dict(zip(base_substrates, new_substrates, strict=True)) | dict(
-            zip(base_products, new_products, strict=True)
-        )
+        # A compound that takes part more than once (2 A -> B with rate k * A * A)
+        # has one isotopomer per occurrence: the j-th mention of the compound among
+        # the rate arguments reads its j-th occurrence among the substrates (further
+        # mentions read the last one)
+        substrate_names: defaultdict[str, list[str]] = defaultdict(list)
+        for base_name, new_name in zip(base_substrates, new_substrates, strict=True):
+            substrate_names[base_name].append(new_name)
+        product_names = dict(zip(base_products, new_products, strict=True))
+
+        mentions: defaultdict[str, int] = defaultdict(int)
+        new_args = []
+        for k in args:
+            if (occurrences := substrate_names.get(k)) is not None:
+                new_args.append(occurrences[min(mentions[k], len(occurrences) - 1)])
+                mentions[k] += 1
+            else:
+                new_args.append(product_names.get(k, k))
 
         model.add_reaction(
             name=new_rate_name,
             fn=function,
             stoichiometry=new_stoichiometry,
-            args=[replacements.get(k, k) for k in args],
+            args=new_args,
         )
 
 
